@@ -297,14 +297,15 @@ func init() {
 		Spaces: func(tier string) []*core.Space {
 			forms, structure, _ := scopeAlphabets()
 			sp := []*core.Space{c12TestdataSpace(), c12ObjectSpace(),
-				c12GenSpace(scopeSpaceDef{"forms-1node", forms, 1, 1, otherVariants, 1, false}),
-				c12GenSpace(scopeSpaceDef{"structure<=2-all-second-files", structure, 1, 2, otherVariants, 1, false}),
-				c12GenSpace(scopeSpaceDef{"structure<=2-on-one-line", structure, 1, 2, otherVariants[:1], 1, true}),
-				c12GenSpace(scopeSpaceDef{"structure-3nodes-on-one-line-first-40000", structure, 3, 3, otherVariants[:1], 40000, true}),
+				c12GenSpace(scopeSpaceDef{"forms-1node", forms, 1, 1, otherVariants, 1, false, nil}),
+				c12GenSpace(scopeSpaceDef{name: "sibling-blocks-on-one-line", others: otherVariants[:1], fixed: siblingBlockPrograms()}),
+				c12GenSpace(scopeSpaceDef{"structure<=2-all-second-files", structure, 1, 2, otherVariants, 1, false, nil}),
+				c12GenSpace(scopeSpaceDef{"structure<=2-on-one-line", structure, 1, 2, otherVariants[:1], 1, true, nil}),
+				c12GenSpace(scopeSpaceDef{"structure-3nodes-on-one-line-first-40000", structure, 3, 3, otherVariants[:1], 40000, true, nil}),
 			}
 			if tier == "thorough" {
-				sp = append(sp, c12GenSpace(scopeSpaceDef{"structure-3nodes", structure, 3, 3, otherVariants[:1], 1, false}),
-					c12GenSpace(scopeSpaceDef{"structure-3nodes-on-one-line", structure, 3, 3, otherVariants[:1], 1, true}))
+				sp = append(sp, c12GenSpace(scopeSpaceDef{"structure-3nodes", structure, 3, 3, otherVariants[:1], 1, false, nil}),
+					c12GenSpace(scopeSpaceDef{"structure-3nodes-on-one-line", structure, 3, 3, otherVariants[:1], 1, true, nil}))
 			}
 			return sp
 		},
